@@ -453,7 +453,7 @@ def _lsend(name, fr, env, so):
                     requires=[R + "req_lite_send"],
                     ensures=[("fate", "spec.c02:ens_send_fate"), ("own_payload", "spec.c02:ens_send_own_payload"),
                              ("ackpl", "spec.c02:ens_send_ackpl"), ("send_inv", R + "ens_lite_send_inv")],
-                    raises=(), policy=LPOL, props=["C20"], max_paths=20000, timeout_ms=60000)
+                    raises=(), policy=LPOL, props=["C20"], max_paths=20000, timeout_ms=60000, poll_bound=12)
 
 
 CONTRACTS += [
@@ -463,5 +463,5 @@ CONTRACTS += [
     _lsend("C20.send[fr=1]", 1, c02.ENV1, False),
     Contract("C20.resend", LITE + ".resend", {"self": lite_schema(p0=N, env=c02.ENV), "send_only": Bool()},
              requires=[R + "req_lite_resend"], ensures=[("fate", "spec.c02:ens_resend"), ("send_inv", R + "ens_lite_send_inv")],
-             raises=(), policy=LPOL, props=["C20"], max_paths=20000, timeout_ms=60000),
+             raises=(), policy=LPOL, props=["C20"], max_paths=20000, timeout_ms=60000, poll_bound=12),
 ]
